@@ -161,6 +161,10 @@ func main() {
 					if r.Intn(8) == 0 {
 						d.K[f] = []sq.Term{{}} // the empty string: a value, and the smallest one
 					}
+					if r.Intn(8) == 0 {
+						// values that begin with a four-byte UTF-8 sequence (0xF0 ...): still below the "missing last" sentinel
+						d.K[f] = []sq.Term{[]sq.Term{{27}, {28, 1}, {27, 27}}[r.Intn(3)]}
+					}
 				}
 				docs[d.ID] = *d
 			}
@@ -189,9 +193,22 @@ func main() {
 		if big {
 			queries = queries[:1]
 		}
+		var mks []func() bluge.Query
 		for _, q := range queries {
+			q := q
 			q.Fix()
-			mk := func() bluge.Query { rq, _ := q.Real(); return rq }
+			mks = append(mks, func() bluge.Query { rq, _ := q.Real(); return rq })
+		}
+		if !big {
+			// NEGATIVE scores (demoting boosts): the score key must order them like any other number
+			mks = append(mks, func() bluge.Query {
+				return bluge.NewBooleanQuery().
+					AddShould(bluge.NewTermQuery(sq.Vocab[0].String()).SetField("f1").SetBoost(-1)).
+					AddShould(bluge.NewTermQuery(sq.Vocab[1].String()).SetField("f1").SetBoost(-2.5)).
+					AddShould(bluge.NewTermQuery(sq.Vocab[2].String()).SetField("f2").SetBoost(0.75))
+			})
+		}
+		for _, mk := range mks {
 			// the complete match list in index order, with scores
 			base, err := run(rd, bluge.NewAllMatches(mk()))
 			if err != nil {
